@@ -114,7 +114,7 @@ impl Check for C20 {
         ]
     }
     fn rule(&self) -> &'static str {
-        "'tree': random ==/!=/conde/fresh programs whose terms mix Pair, Triple, Named (named fields), Rust tuples and Option::Some with lists and literals to depth 2-3; 'fdcomp': FD variables over small signed ranges with ltefd/diseqfd, the query variable bound to nested compounds/lists holding those variables; 'fixed': hand-written corner cases (different types of equal arity, compound vs list, compound vs literal, occurs check through a compound, Option, tuple, FD labeling inside compound fields). Each program P is run on the real engine together with its tagged-list twin (every compound T(a,b) replaced by the list [\"#T\", a, b], every cons cell by [\"#.\", h, t] and [] by \"#nil\", so that all structure heads are constants and the encoding is a homomorphism for unification); the answers of P, encoded the same way, must equal the twin's answers as multisets of ground-instance sets; both are also compared with the reference interpreter. Distinct = distinct program text; non-trivial = the program contains a compound term and a variable."
+        "'tree': random ==/!=/conde/fresh programs whose terms mix Pair, Triple, Named (named fields), Rust tuples and Option::Some with lists and literals to depth 2-3; 'fdcomp': FD variables over small signed ranges with ltefd/diseqfd, the query variable bound to nested compounds/lists holding those variables; 'fixed': hand-written corner cases (different types of equal arity, compound vs list, compound vs literal, occurs check through a compound, Option, tuple, FD labeling inside compound fields). Each program P is run on the real engine together with its tagged-list twin (every compound T(a,b) replaced by the list [\"#T\", a, b], every cons cell by [\"#.\", h, t] and [] by \"#nil\", so that all structure heads are constants and the encoding is a homomorphism for unification); the answers of P, encoded the same way, must equal the twin's answers as multisets of ground-instance sets; both are also compared with the reference interpreter. A compiled 'typed' lane covers compounds whose fields are themselves compound-typed (`struct TreeNode(LTerm, TreeNode, TreeNode)` and a named-field twin; typed logic variables `|q: TreeNode|`, `[]` as the empty value of a typed field, `_` as a typed wildcard, constructor terms nested in argument position, tuple-like and named compound patterns in match): the depth-bounded relation between a tree and the in-order list of its node names is run forward (ground tree -> list), backward (list of 1-4 names, with repeats -> every tree, tuple-like and named) and against partially specified trees with typed holes, name variables and wildcards, and two partially specified typed terms are unified (`a == b`); the answers, parsed from the result Display, must equal as a multiset the ones computed by enumerating all binary trees with that in-order sequence (resp. by the harness's own unification of the two patterns). Distinct = distinct program text; non-trivial = the program contains a compound term and a variable."
     }
     fn assumptions(&self) -> Vec<String> {
         vec!["the tagged-list encoding is injective on the terms generated (tags are strings starting with '#', which no generator emits otherwise)".into(), "Option::None converts to the empty list by design and is not generated as a compound".into()]
@@ -126,9 +126,25 @@ impl Check for C20 {
         }
     }
     fn required_counters(&self) -> Vec<&'static str> {
-        vec!["twin_compared", "ref_compared", "answers_with_compounds", "fd_answers_in_compounds"]
+        vec!["twin_compared", "ref_compared", "answers_with_compounds", "fd_answers_in_compounds", "typed_compared_with_enumeration", "typed_forward", "typed_backward_named", "typed_backward_unnamed", "typed_partial", "typed_same"]
+    }
+    fn run_batch(&self, tier: Tier, seed: u64) -> Option<Merged> {
+        Some(super::typed::run_typed_lane("C20", tier, seed, None))
     }
     fn run_case(&self, gen: &str, seed: u64, index: u64, tier: Tier) -> CaseOut {
+        if gen == "typed" {
+            // replay of one case of the typed-compound lane (violation files name them `typed:<k>`)
+            let merged = super::typed::run_typed_lane("C20", tier, seed, Some(index as usize));
+            let mut out = CaseOut::default();
+            for (_, v) in merged.violations {
+                out.violations.push(v);
+            }
+            for (k, n) in merged.counters {
+                out.count(&k, n);
+            }
+            out.inconclusive = merged.inconclusive;
+            return out;
+        }
         let mut out = CaseOut::default();
         let mut rng = Rng::for_case(seed, gen, index);
         let prog = match gen {
